@@ -185,6 +185,93 @@ func runC12(c *Ctx) {
 	}
 	c.floor("wager-monotone", "in-round stores to CurrentWager", nStores, 2)
 
+	// ---- min-raise-owner: the minimum raise of a round starts from zero at every round boundary and
+	// is set to the big blind by the blinds payment; after that only the chip mover and the offered
+	// actions (a bet, a raise) store it. A value left over from an earlier street, or seeded by the
+	// street sequencing, decides wrongly whether a later short all-in or raise counts
+	{
+		ix := p.Index()
+		isAct := map[*ssa.Function]bool{}
+		for _, am := range acts {
+			isAct[am.Fn] = true
+		}
+		var bad []string
+		nW := 0
+		for _, w := range ix.Writers("pokerface.Status.PreviousRaiseSize") {
+			nW++
+			if w == mover || isAct[w] {
+				continue
+			}
+			// a body helper of an action method
+			helperOfAct := false
+			for _, cl := range ix.Callers(w) {
+				if isAct[cl] && privateHelper(cl, w) {
+					helperOfAct = true
+				}
+			}
+			if helperOfAct {
+				continue
+			}
+			s := newSumm(p, 0)
+			owner := w
+			s.HelperInline = func(f *ssa.Function) bool { return privateHelper(owner, f) && len(findLoops(f)) == 0 }
+			paths, _ := s.Function(w)
+			for _, ps := range paths {
+				for _, e := range ps.storesTo("pokerface.Status.PreviousRaiseSize") {
+					v := e.Val.String()
+					if z, ok := e.Val.isConstInt(); ok && z == 0 {
+						continue // a reset
+					}
+					if strings.HasSuffix(v, "Meta.Blind.BB") || strings.HasSuffix(v, "Meta.Blind.Dealer") || strings.HasSuffix(v, ".Blind.BB") || strings.HasSuffix(v, ".Blind.Dealer") {
+						continue // the opening minimum (C13/min-raise-init decides which and when)
+					}
+					bad = append(bad, fnKey(w)+" sets the minimum raise to "+v+" ("+e.Pos+")")
+				}
+			}
+		}
+		// every round reset zeroes it
+		for _, r := range ix.Writers("pokerface.Status.CurrentRoundPot") {
+			if r == mover {
+				continue
+			}
+			s := newSumm(p, 0)
+			paths, _ := s.Function(r)
+			resets := len(paths) > 0
+			for _, ps := range paths {
+				st := ps.storesTo("pokerface.Status.CurrentRoundPot")
+				if ps.End != "return" {
+					continue
+				}
+				if len(st) == 0 {
+					resets = false
+					continue
+				}
+				if z, ok := st[len(st)-1].Val.isConstInt(); !ok || z != 0 {
+					resets = false
+				}
+			}
+			if !resets {
+				continue
+			}
+			for _, ps := range paths {
+				if ps.End != "return" {
+					continue
+				}
+				st := ps.storesTo("pokerface.Status.PreviousRaiseSize")
+				okz := false
+				for _, e := range st {
+					if z, ok := e.Val.isConstInt(); ok && z == 0 {
+						okz = true
+					}
+				}
+				if !okz {
+					bad = append(bad, fnKey(r)+" resets the round without zeroing the minimum raise: the last street's raise size carries over")
+				}
+			}
+		}
+		c.check(len(bad) == 0 && nW >= 3, "min-raise-owner", "Status.PreviousRaiseSize", "-", "zeroed by every round reset, opened by the blinds payment, otherwise stored only by the chip mover and the offered actions", "the minimum raise is set or kept by something else", uniq(bad, 3)...)
+	}
+
 	// ---- raiser: raising the wager to match makes the payer the current raiser
 	{
 		s := newSumm(p, 2)
